@@ -49,6 +49,8 @@ def variants(sc, b):
         if sessprop.sampled(sc2, b, 3):
             # a reset connection: shutdown() answers ENOTCONN, the descriptor must be closed all the same
             out.append((mech + '-enotconn', dict(copy.deepcopy(sc2), shutdown_raises=True)))
+            # ... or with any other error (ECONNRESET, something that is not an OSError at all)
+            out.append((mech + '-shutdown-fails', dict(copy.deepcopy(sc2), shutdown_raises='reset' if sessprop.sampled(sc2, b, 2) else 'boom')))
         if sessprop.sampled(sc2, b, 2):
             # another thread is in the middle of a send (holds the write lock) when the consumer abandons: the library
             # has to wait for it, not skip the close
